@@ -48,6 +48,18 @@ ADHOC = (("ref", 7, (1, 0)), ("opt", 7, (1, 0)), ("opt", 7, (2, 0)), ("opt", 13,
 # =========================================================================================================
 # value <-> descriptor
 # =========================================================================================================
+def interpreter_state():
+    """Interpreter-wide settings a library call has no business changing (py_ecc raises the recursion limit once,
+    at import)."""
+    import decimal
+    import random
+    c = decimal.getcontext()
+    return {"recursionlimit": sys.getrecursionlimit(), "decimal": [c.prec, c.rounding],
+            "random_state": hashlib.sha256(repr(random.getstate()).encode()).hexdigest()[:16],
+            "int_max_str_digits": sys.get_int_max_str_digits() if hasattr(sys, "get_int_max_str_digits") else None,
+            "cwd": os.getcwd(), "environ": hashlib.sha256(repr(sorted(os.environ.items())).encode()).hexdigest()[:16]}
+
+
 class World:
     """Everything that depends on the imported library: class registry, constants, functions."""
 
@@ -346,6 +358,9 @@ def build_functions(W):
             add(f"{mname}.eq:{g}", "curve", [Pt, Pt], m.eq)
             add(f"{mname}.multiply:{g}", "curve", [Pt, "smallint" if g == "G12" else "scalar"], m.multiply,
                 cost=heavy, result_tag=Pt)
+            if g == "G1":
+                # scalars far wider than the group order (the recursive double-and-add goes one frame per bit)
+                add(f"{mname}.multiply_wide:{g}", "curve", [Pt, "widescalar"], m.multiply, cost=1, result_tag=Pt)
             bcoef = getattr(m, bname)
             add(f"{mname}.is_on_curve:{g}", "curve", [Pt], lambda p, _m=m, _b=bcoef: _m.is_on_curve(p, _b))
             add(f"{mname}.is_inf:{g}", "curve", [Pt], m.is_inf)
@@ -425,6 +440,7 @@ def build_functions(W):
     add("secp.sign_recover", "secp", ["hash32", "priv32"], lambda h, k: sp.ecdsa_raw_recover(h, sp.ecdsa_raw_sign(h, k)))
     add("secp.add", "secp", ["secp_pt", "secp_pt"], sp.add, result_tag="secp_pt")
     add("secp.multiply", "secp", ["secp_pt", "int"], sp.multiply, result_tag="secp_pt")
+    add("secp.multiply_wide", "secp", ["secp_pt", "widescalar"], sp.multiply, result_tag="secp_pt")
     add("secp.recover_bad", "secp", ["hash32", "smallint", "scalar", "scalar"],
         lambda h, v, r, s_: sp.ecdsa_raw_recover(h, (27 + v % 3, r, s_)))
     add("secp.deterministic_generate_k", "secp", ["hash32", "priv32"], sp.deterministic_generate_k)
@@ -438,6 +454,7 @@ LITERALS = {
     "int": [0, 1, 2, -1, 7, 1 << 64, R_BLS, -(1 << 200), (1 << 381) + 5],
     "scalar": [0, 1, 2, 5, 12, 1 << 64, R_BLS - 1, R_BLS, (1 << 254) + 3],
     "sk": [1, 2, 5, 12345, R_BLS - 1, (1 << 254) + 3],
+    "widescalar": [(1 << 1100) + 0x1234567, (1 << 1500) - 1, -(1 << 1200) - 5],
     "bytes": [b"", b"a", b"message", b"\x00" * 32, bytes(range(64)), b"x" * 65],
     "bytes2": [b"other", b"\x01", b"second message"],
     "dst": [b"", b"DST", b"BLS_SIG_BLS12381G2_XMD:SHA-256_SSWU_RO_NUL_", b"d" * 255],
@@ -497,6 +514,7 @@ class Runner:
         args = [self.resolve(r) for r in step["args"]]
         before = [W.snap(a) for a in args]
         arg_descs = [W.desc(a) for a in args]
+        ist0 = interpreter_state()
         try:
             out = fn.call(*args)
             res = ("ok", out, W.desc(out))
@@ -505,6 +523,10 @@ class Runner:
             res = ("exc", type(e).__name__)
         except Exception as e:  # noqa  (eth_utils.ValidationError and friends)
             res = ("exc", type(e).__name__)
+        ist1 = interpreter_state()
+        if ist1 != ist0:
+            self.fail(f"interpreter_state_changed:{step['f']}",
+                      f"{step['f']} changed interpreter-wide state: {ist0} -> {ist1}")
         after = [W.snap(a) for a in args]
         for i, (b, a) in enumerate(zip(before, after)):
             if b != a:
@@ -598,7 +620,11 @@ def _fresh_main(path):
         job = json.load(fh)
     import_repo()
     for name in job.get("import_first", []):
-        importlib.import_module(name)
+        if name.startswith("attr:"):
+            # reach the subpackage the other way: as an attribute of the package (its lazy __getattr__)
+            getattr(importlib.import_module("py_ecc"), name[5:])
+        else:
+            importlib.import_module(name)
     W = World()
     R = Runner(W, fresh=True)
     out = {}
@@ -763,7 +789,7 @@ def make_machine(ctx, W, budget, fresh_every):
                 idx = list(range(n))
                 rev = idx[::-1]
                 perm = sorted(idx, key=lambda q: (q * 7919 + n) % (n + 3))
-                orders = [[rev, []], [perm, ["py_ecc.secp256k1", "py_ecc.bls", "py_ecc.bn128"]]]
+                orders = [[rev, []], [perm, ["attr:secp256k1", "py_ecc.bls", "attr:bn128"]]]
                 ctx.case = {"steps": self.R.steps, "fresh": orders}
                 check_fresh(ctx, W, self.R, orders)
             if n:
@@ -861,10 +887,14 @@ def t_pinned(ctx):
         {"f": "pop.KeyGen:bytearray", "args": [lit(bytearray(b"seed material")), lit(bytearray(b"info"))]},
         {"f": "hkdf_expand:bytearray", "args": [lit(bytearray(32)), lit(bytearray(b"info")), lit(33)]},
         {"f": "pop.KeyGen:bytearray", "args": [lit(bytearray(b"seed material")), lit(bytearray(b"info"))]},
+        {"f": f"{OB}.multiply_wide:G1", "args": [{"c": f"py_ecc.{OB}.G1"}, lit((1 << 1100) + 0x1234567)]},
+        {"f": "bn128.multiply_wide:G1", "args": [{"c": "py_ecc.bn128.G1"}, lit((1 << 1500) - 1)]},
+        {"f": "secp.multiply_wide", "args": [{"c": "py_ecc.secp256k1.secp256k1.G"}, lit(-(1 << 1200) - 5)]},
     ]
     steps = sanitize_steps(W, steps)
     n = len(steps)
-    case = {"steps": steps, "fresh": [[list(range(n))[::-1], []], [list(range(0, n, 2)) + list(range(1, n, 2)), ["py_ecc.bn128"]]]}
+    case = {"steps": steps, "fresh": [[list(range(n))[::-1], []], [list(range(0, n, 2)) + list(range(1, n, 2)), ["py_ecc.bn128"]],
+                                       [list(range(n)), ["attr:secp256k1", "attr:bls", "attr:optimized_bn128"]]]}
     ctx.ev(n)
     o_history(ctx, case)
     for g in ("field", "curve", "pairing", "hash", "codec", "bls", "secp"):
